@@ -94,6 +94,13 @@ Proof.
 Qed.
 Print Assumptions C08_strip_harmless.
 
+(* the tokenizer (a one-pass state machine) computes the declarative reading of the pattern
+   {[\d,]+?}|[\d,]+|{}  : alternatives tried in order at each position, scan resumed after a match, one character
+   skipped when nothing matches (Model/CatIO.v, findall_ref); both are compared with re.findall on every run *)
+Theorem C08_tokenizer_spec : forall s, tokenize s = findall s.
+Proof. exact tokenize_findall. Qed.
+Print Assumptions C08_tokenizer_spec.
+
 (* ---- the hypotheses are satisfiable: a concrete instance ------------------------------------------------- *)
 (* three categories (one with an EMPTY name), an alternative with an EMPTY name, ballots with empty categories
    first / middle / last, consecutive empties, an all-empty ballot, a category listed in decreasing order,
